@@ -101,6 +101,13 @@ def run_kani_units(prop, units, tier, log):
                         raise Undecided(f"harness {h['name']}: unwinding bound too small (tool limit)")
                     if clause:
                         failed_named.add(hid)
+                    foreign = {x for x in failed_named if not x.startswith(prop + '.')}
+                    failed_named -= foreign
+                    if foreign and not failed_named and not auto:
+                        # a clause of another property failed first in this shared harness; Kani stops a path at the
+                        # first failing assertion, so this property's clauses behind it are not established
+                        results.append(dict(base, id=f"{hid}.sup.blocked_by_{sorted(foreign)[0]}", cls='support',
+                                            status='failed', time=r['time'], detail='; '.join(sorted(foreign))))
                     for oid in sorted(set(named) | failed_named):
                         st = 'failed' if oid in failed_named else 'discharged'
                         results.append(dict(base, id=oid, cls=ob_class(oid), status=st, time=r['time'],
